@@ -126,7 +126,17 @@ Theorem C11_hexagons_spec :
   forall R start, 0 <= R -> hexagons_spec R start (concentric_hexagons R start).
 Proof. exact hexagons_ok. Qed.
 
+(* the guard 0 <= R is the generator's domain: for a negative radius it still yields the centre, which is
+   not within a negative distance of anything *)
+Theorem C11_hexagons_negative_radius :
+  forall R start, R < 0 -> concentric_hexagons R start = [start].
+Proof. exact hexagons_negative_radius. Qed.
+
 (* ---- the hypotheses are satisfiable, the conclusions not vacuous *)
+Example C11_hexagons_instance :
+  concentric_hexagons 1 (0, 0) = [(0, 0); (0, -1); (1, 0); (1, 1); (0, 1); (-1, 0); (-1, -1)] /\ 0 <= 1.
+Proof. exact ex_hexagons. Qed.
+
 Example C11_torus_path_instance :
   shortest_torus_path 0 0 0 0 ex_rint (0, 0, 0) (5, 0, 0) 20 2 = Ok (1, 0, -4) /\
   shortest_torus_path_length (0, 0, 0) (5, 0, 0) 20 2 = 5 /\ randint_contract ex_rint.
